@@ -585,8 +585,10 @@ class Producer(object):
             Params:
             failed_payloads - list of (payload, failure) tuples
             """
-            # Do we have retries left?
-            if self._req_attempts >= self._max_attempts:
+            # Do we have retries left? None once stop() has been called: the
+            # cancellation of the request in flight can itself come back as
+            # failed payloads, and nothing may be transmitted after stop().
+            if self.stopping or self._req_attempts >= self._max_attempts:
                 # No, no retries left, fail each failed_payload with its
                 # associated failure
                 for p, f in failed_payloads_with_errs:
